@@ -20,7 +20,8 @@ ASSUMPTIONS = ["sequentially consistent interleavings that switch only at pthrea
                "thread-local storage (tl_wrapper) and real stacks are not modelled; thread functions terminate"]
 RULE = ("programs of 1..6 thread slots (manual/managed, nested launches, 0..4 at-exit registrations, joins, count reads, "
         "join-all racing completions, timeouts with virtual time, injected pthread_create failures, launches with a "
-        "cpu_id (valid / not honourable: first create fails with EINVAL and the library retries unpinned / retry fails too)) x schedules "
+        "cpu_id (valid / not honourable: first create fails with EINVAL and the library retries unpinned / retry fails too), "
+        "named threads, pthread_create as two schedule points (create / return to the creator)) x schedules "
         "(choice lists from the PRNG, spurious wake-ups, and every schedule of small programs up to a preemption bound, "
         "enumerated on the model); non-trivial = at least two threads of which one is managed")
 NOT_PROVED = ["c20_no_deadlock: kept as `def c20_no_deadlock_statement : Prop` (full strength, for WFProgress programs). "
@@ -32,7 +33,7 @@ NOT_PROVED = ["c20_no_deadlock: kept as `def c20_no_deadlock_statement : Prop` (
               "schedule of the correspondence run ends with all threads finished (the scheduler reports a deadlock "
               "or livelock as a violation)."]
 
-ACT = re.compile(r"^([LPQRJDACWTYS])(\d*)$")
+ACT = re.compile(r"^([LPQRJDACWTYS])(\d*)(n?)$")   # trailing n on a launch: the thread gets a name
 LAUNCH = "LPQR"   # L: cpu_id -1; P: cpu 0; Q: cpu 1000, first pthread_create fails EINVAL, retried unpinned; R: retry fails too
 
 
@@ -58,7 +59,8 @@ def gen_program(rng, nmax=6, allow_time=True):
         ncb = rng.choice([0, 0, 1, 1, 2, 3, 4]) if k else (1 if rng.random() < 0.1 else 0)
         cbs = rng.sample(range(1, 10), ncb)
         lop = {c: ("L" if rng.random() < 0.68 else rng.choice("PQQQR")) for c in children[k]}
-        items = [f"A{c}" for c in cbs] + [f"{lop[c]}{c}" for c in children[k]]
+        ltok = {c: f"{lop[c]}{c}" + ("n" if rng.random() < 0.35 else "") for c in children[k]}
+        items = [f"A{c}" for c in cbs] + [ltok[c] for c in children[k]]
         items += ["Y"] * rng.choice([0, 0, 1, 1, 2, 3])
         items += ["C"] * rng.choice([0, 0, 0, 1, 2])
         if use_time and k and rng.random() < 0.5:
@@ -67,7 +69,7 @@ def gen_program(rng, nmax=6, allow_time=True):
         # launches keep child order irrelevant; joins of manual children come after their launch
         for c in children[k]:
             if not managed[c]:
-                pos = items.index(f"{lop[c]}{c}")
+                pos = items.index(ltok[c])
                 at = rng.randint(pos + 1, len(items))
                 items.insert(at, f"D{c}" if c in detached else f"J{c}")
                 if c not in detached and rng.random() < 0.3:
@@ -144,6 +146,13 @@ SMALL = [
     ("pinned-retry-nested", ["slot 1 M Q2", "slot 2 M", "main P1 W"], (2, 70, 300), (3, 90, 6000)),
     ("pinned-retry-timeout", ["slot 1 M", "main T200 Q1 W T0 W", "tick 50"], (1, 120, 200), (2, 160, 3000)),
     ("pinned-retry-fails", ["slot 1 M", "slot 2 M", "main R1 C L2 W"], (2, 70, 300), (3, 90, 5000)),
+    # named threads x failing create (the name string must be released by the failed-launch cleanup)
+    ("named-create-fails", ["slot 1 M", "slot 2 U", "slot 3 M", "main R1n Q2n J2 L3n W C"], (1, 90, 300), (2, 110, 6000)),
+    ("named-fail-unpinned", ["slot 1 M", "slot 2 M A1", "main L1n L2n W", "fail 0 11"], (2, 70, 300), (3, 90, 5000)),
+    # the creator is preempted between pthread_create and its return while the new thread finishes and is
+    # joined by its own child (thread-id hand-over window)
+    ("create-window", ["slot 1 M L2", "slot 2 M", "main L1 W"], (2, 70, 500), (3, 90, 8000)),
+    ("create-window-3", ["slot 1 M L2n", "slot 2 M L3", "slot 3 M", "main L1n W"], (1, 100, 400), (2, 120, 8000)),
 ]
 
 
@@ -294,6 +303,8 @@ def oracle(case, lines):
             errs.append("pthread misuse reported by the scheduler (unlock by non-owner / join of a joined thread)")
         if kv["rerun"] != "0":
             errs.append("a thread function ran more than once")
+        if kv.get("unjoined", "0") != "0" and kv["deadlock"] == "0" and kv["livelock"] == "0":
+            errs.append(f"{kv['unjoined']} managed thread(s) ran but were never joined (pthread_join on their id never happened)")
         if kv["deadlock"] == "0" and kv["livelock"] == "0" and case.tags.get("clean", True):
             if kv["count"] != "0":
                 errs.append(f"managed thread count is {kv['count']} after the final join_all_managed")
@@ -308,7 +319,7 @@ def nontrivial(case):
 
 def distribution(cases, c_out):
     d = {"threads": {}, "managed_slots": 0, "manual_slots": 0, "atexit_regs": 0, "joinall_calls": 0, "timeouts_cfg": 0,
-         "create_fail": 0, "pinned_launch": 0, "pinned_retry": 0, "pinned_retry_fails": 0, "joinall_ok": 0, "joinall_err": 0, "sync_events": 0, "spurious": 0, "waits": 0, "exhaustive_scheds": 0}
+         "create_fail": 0, "named_launch": 0, "pinned_launch": 0, "pinned_retry": 0, "pinned_retry_fails": 0, "joinall_ok": 0, "joinall_err": 0, "sync_events": 0, "spurious": 0, "waits": 0, "exhaustive_scheds": 0}
     for i, c in enumerate(cases):
         n = c.tags.get("n", 0)
         d["threads"][str(n)] = d["threads"].get(str(n), 0) + 1
@@ -322,9 +333,10 @@ def distribution(cases, c_out):
                 d["atexit_regs"] += sum(1 for a in t if a.startswith("A"))
                 d["joinall_calls"] += sum(1 for a in t if a == "W")
                 d["timeouts_cfg"] += sum(1 for a in t if a.startswith("T") and a != "T0")
-                d["pinned_launch"] += sum(1 for a in t[1:] if a[0] in "PQR" and a[1:].isdigit())
-                d["pinned_retry"] += sum(1 for a in t[1:] if a[0] in "QR" and a[1:].isdigit())
-                d["pinned_retry_fails"] += sum(1 for a in t[1:] if a[0] == "R" and a[1:].isdigit())
+                d["named_launch"] += sum(1 for a in t[1:] if a[0] in LAUNCH and a.endswith("n"))
+                d["pinned_launch"] += sum(1 for a in t[1:] if a[0] in "PQR" and a[1:].rstrip("n").isdigit())
+                d["pinned_retry"] += sum(1 for a in t[1:] if a[0] in "QR" and a[1:].rstrip("n").isdigit())
+                d["pinned_retry_fails"] += sum(1 for a in t[1:] if a[0] == "R" and a[1:].rstrip("n").isdigit())
             if t[0] == "fail":
                 d["create_fail"] += 1
         for l in c_out.get(i, []):
